@@ -68,7 +68,6 @@ PROPS = {
         'assumptions': ['reference general positions typed in from International Tables A (Spec/Groups.lean)'],
     },
     'C17': {
-        'claimed': False,
         'level_text': 'Full proof of the grammar clause (every string of the inductively defined grammar parses to the affine map its expression denotes, over any field) and of totality/error clauses for all strings, about a character-level model of from_operations.',
         'level_note': 'Trusted: Lean kernel + 3 standard axioms; the model parser is tied to Transform2::from_operations by bit-exact differential correspondence on grammar, mutated and arbitrary Unicode strings; f64 rounding of d/e outside the theorem; Rust-level absence of panics rests on the modelled control flow (index sites guarded by the dimension check).',
         'technique': 'Lean 4 structural induction over an inductive grammar + differential correspondence',
